@@ -443,11 +443,13 @@ def bucket(n, steps=(0, 1, 2, 4, 8, 16, 32, 64, 128)):
     return b
 
 
-def distribution(cases, by_id):
-    d = {"kinds": {}, "streams": {}, "tag_len_buckets": {}, "observed_args": {}, "intended_args": {},
-         "with_brackets": 0, "unbalanced_brackets": 0, "non_ascii_bytes": 0, "invalid_utf8": 0, "with_duplicate_names": 0,
-         "bracketed_value_with_separator_inside": 0, "required_false_observed": 0, "probes": 0,
-         "probes_first_letter_flipped_found": 0, "empty_name_segments": 0, "implementation_panics": 0}
+def distribution(cases, by_id, d=None):
+    """measured input distribution; pass the previous result as `d` to accumulate over batches"""
+    if d is None:
+        d = {"kinds": {}, "streams": {}, "tag_len_buckets": {}, "observed_args": {}, "intended_args": {},
+             "with_brackets": 0, "unbalanced_brackets": 0, "non_ascii_bytes": 0, "invalid_utf8": 0,
+             "with_duplicate_names": 0, "bracketed_value_with_separator_inside": 0, "required_false_observed": 0,
+             "probes": 0, "probes_first_letter_flipped_found": 0, "empty_name_segments": 0, "implementation_panics": 0}
 
     def inc(m, k):
         m[str(k)] = m.get(str(k), 0) + 1
@@ -530,26 +532,57 @@ def shrink_candidates(c):
     return out
 
 
+BATCH = 60000   # cases per driver process / Coq evaluation round (bounds memory in the thorough tier)
+
+
 def run(ctx):
     static_ok = vlib.static_obligations(ctx)
     binp = vlib.go_build(ctx, "./cmd/c19")
     nd, ns, ne = (20000, 1800, 200) if ctx.quick() else (400000, 30000, 3000)
-    cases = corpus_cases()
-    ncorpus = len(cases)
+    corpus = corpus_cases()
+    ncorpus = len(corpus)
     if ctx.replay:
         r = json.load(open(ctx.replay))
         rc_ = r.get("case", {}).get("case")
-        cases = [rc_] if rc_ else cases
+        plan = [("replay", [rc_] if rc_ else corpus, (0, 0, 0))]
     else:
-        cases += gen_cases(ctx, nd, ns, ne)
-    by_id, M, V, NT = evaluate(ctx, binp, cases, "main")
-    ctx.log("cases=%d (corpus %d) nontrivial=%d mismatches=%d violations=%d" % (len(cases), ncorpus, len(NT), len(M), len(V)))
-    distinct_nt = len({(cases[i]["kind"], cases[i].get("key", ""), cases[i]["tag"]) for i in NT})
-    distinct = len({(c["kind"], c.get("key", ""), c["tag"]) for c in cases})
-    dist = distribution(cases, by_id)
-
-    V.sort(key=lambda i: (len(cases[i]["tag"]), i))
-    M.sort(key=lambda i: (len(cases[i]["tag"]), i))
+        nb = max(1, (nd + ns + ne + BATCH - 1) // BATCH)
+        plan = []
+        for k in range(nb):
+            share = tuple(x // nb + (1 if k < x % nb else 0) for x in (nd, ns, ne))
+            plan.append(("b%d" % k, corpus if k == 0 else [], share))
+    keep = {}            # global case id -> description; only failing cases and samples are kept
+    M, V = [], []
+    total = nt_total = e2e_total = 0
+    seen, seen_nt = set(), set()
+    dist = None
+    samples = []
+    for bi, (tag, cases, share) in enumerate(plan):
+        cases = list(cases) + (gen_cases(ctx, *share) if any(share) else [])
+        by_id, m, v, nt = evaluate(ctx, binp, cases, tag)
+        dist = distribution(cases, by_id, dist)
+        for i, c in enumerate(cases):
+            seen.add(hash((c["kind"], c.get("key", ""), c["tag"])))
+        for i in nt:
+            seen_nt.add(hash((cases[i]["kind"], cases[i].get("key", ""), cases[i]["tag"])))
+        for i in set(m) | set(v):
+            keep[total + i] = by_id[i]
+        M += [total + i for i in m]
+        V += [total + i for i in v]
+        ids = sorted(by_id)
+        if bi == 0:
+            samples += [by_id[i] for i in ids[:2]] + [by_id[i] for i in ids[ncorpus:ncorpus + 2]]
+        if bi == len(plan) - 1:
+            samples += [by_id[i] for i in ids[-2:]]
+        nt_total += len(nt)
+        e2e_total += sum(1 for c in cases if c["kind"].startswith("e2e"))
+        total += len(cases)
+        ctx.log("batch %d/%d: cases=%d nontrivial=%d mismatches=%d violations=%d" % (
+            bi + 1, len(plan), len(cases), len(nt), len(m), len(v)))
+    ctx.log("cases=%d (corpus %d) nontrivial=%d mismatches=%d violations=%d" % (total, ncorpus, nt_total, len(M), len(V)))
+    by_id = keep
+    V.sort(key=lambda i: (len(keep[i]["case"]["tag"]), i))
+    M.sort(key=lambda i: (len(keep[i]["case"]["tag"]), i))
 
     def shrink(cur):
         for _round in range(15):
@@ -572,11 +605,9 @@ def run(ctx):
         V2.sort(key=lambda i: (len(more[i]["tag"]), i))
         return [b2[i] for i in V2[:3]]
 
-    ids = sorted(by_id)
-    samples = [by_id[i] for i in ids[:2]] + [by_id[i] for i in ids[ncorpus:ncorpus + 2]] + [by_id[i] for i in ids[-2:]]
     cov = {
-        "evaluations": len(cases),
-        "distinct_nontrivial": distinct_nt,
+        "evaluations": total,
+        "distinct_nontrivial": len(seen_nt),
         "rule": "tag byte strings fed to the real code: NewProperty directly (TagVal/TagStr, Args().ForEach, IsRequired, Find/Has "
                 "probes with the first letter's case flipped), the real tag-scan processors on reflect.StructOf structs "
                 "(prop shorthand rewrite, Required default) and real app.Run starts; streams: structured (value x 0-5 arguments x "
@@ -585,10 +616,10 @@ def run(ctx):
                 "invalid UTF-8 / empty first bytes, uniform bytes); non-trivial = the tag contains a ','; distinct = distinct "
                 "(kind, key, tag bytes)",
         "samples": samples,
-        "traces_validated_against_impl": sum(1 for c in cases if c["kind"].startswith("e2e")),
+        "traces_validated_against_impl": e2e_total,
         "input_distribution": dist,
-        "distinct_cases": distinct,
-        "nontrivial_cases": len(NT),
+        "distinct_cases": len(seen),
+        "nontrivial_cases": nt_total,
     }
     return vlib.decide(ctx, static_ok, by_id, M, V, cov, widen=widen, shrink=shrink,
                        assumptions=["strings.ToUpper on a one-byte string: ASCII upper-casing, U+FFFD for a byte >= 0x80 "
